@@ -549,6 +549,6 @@ func (c *connection) TCPDown(cause error) {
 	}
 
 	if s := c.sup.Load(); s != nil {
-		s.inject(evDisconnect)
+		s.injectTagged(evDisconnect)
 	}
 }
